@@ -17,6 +17,11 @@ import (
 //verif:stub (*github.com/alphadose/haxmap.Map[K,V]).Del vHaxDel
 //verif:stub (*github.com/alphadose/haxmap.Map[K,V]).Len vHaxLen
 //verif:stub (*github.com/alphadose/haxmap.Map[K,V]).ForEach vHaxForEach
+//verif:stub (*github.com/alphadose/haxmap.Map[K,V]).GetOrSet vHaxGetOrSet
+//verif:stub (*github.com/alphadose/haxmap.Map[K,V]).GetOrCompute vHaxGetOrCompute
+//verif:stub (*github.com/alphadose/haxmap.Map[K,V]).GetAndDel vHaxGetAndDel
+//verif:stub (*github.com/alphadose/haxmap.Map[K,V]).Swap vHaxSwap
+//verif:stub (*github.com/alphadose/haxmap.Map[K,V]).Grow vHaxGrow
 
 type vHM = haxmap.Map[string, cacheEntry[int]]
 
@@ -41,6 +46,34 @@ func vHaxDel(m *vHM, keys ...string) {
 	}
 }
 func vHaxLen(m *vHM) uintptr { return uintptr(len(vStore[m])) }
+func vHaxGetOrSet(m *vHM, key string, v cacheEntry[int]) (cacheEntry[int], bool) {
+	if old, ok := vStore[m][key]; ok {
+		return old, true
+	}
+	vStore[m][key] = v
+	return v, false
+}
+func vHaxGetOrCompute(m *vHM, key string, fn func() cacheEntry[int]) (cacheEntry[int], bool) {
+	if old, ok := vStore[m][key]; ok {
+		return old, true
+	}
+	v := fn()
+	vStore[m][key] = v
+	return v, false
+}
+func vHaxGetAndDel(m *vHM, key string) (cacheEntry[int], bool) {
+	v, ok := vStore[m][key]
+	delete(vStore[m], key)
+	return v, ok
+}
+func vHaxSwap(m *vHM, key string, v cacheEntry[int]) (cacheEntry[int], bool) {
+	old, ok := vStore[m][key]
+	if ok {
+		vStore[m][key] = v
+	}
+	return old, ok
+}
+func vHaxGrow(m *vHM, n uintptr) {}
 func vHaxForEach(m *vHM, fn func(string, cacheEntry[int]) bool) {
 	for k, v := range vStore[m] {
 		if !fn(k, v) {
@@ -257,4 +290,47 @@ func VerifTTLOverwrite() {
 	}
 	c.Stop()
 	zzverif.Cover("ttl_overwrite_done")
+}
+
+// Sub-second instants: the cache clock is not aligned to whole seconds, entries are set, time passes by fractions of
+// a second and a manual Cleanup runs during an entry's last second - exactly at, just before and just after its expiry.
+// Cleanup removes only what has expired (expiry strictly before now) and Get hits iff strictly less than the TTL has
+// elapsed. Offsets, TTLs and steps are forked from small sets that include every boundary (a symbolic division of
+// the nanosecond clock by 10^9, which an implementation comparing whole seconds would introduce, is beyond the
+// solvers; with forked values the same code is decided by evaluation).
+//
+//verif:harness prop=C15 name=ttl_subsecond threads=2 sched=delay preempt=0 unwind=12 witness=lenient
+func VerifTTLSubSecond() {
+	vStore = nil
+	offs := []int64{0, 1, 500_000_000, 900_000_000, 999_999_999}
+	start := zzverif.TimeFromNanos(1_000_000_000_000 + offs[zzverif.Choose("clock_offset_ns", len(offs))])
+	clk := zzverifstubs.NewClock(start)
+	c := NewCache[int](CacheOptions{clock: clk, CleanupInterval: time.Hour})
+	ttl := int64(1 + zzverif.Choose("ttl_s", 2))
+	c.Set("k", 7, ttl)
+	c.Set("other", 8, 1000)
+	steps := []time.Duration{1, 100 * time.Millisecond, 500 * time.Millisecond, 999_999_999, time.Second, time.Second + 1,
+		1500 * time.Millisecond, 2 * time.Second, 2*time.Second + 1}
+	elapsed := steps[zzverif.Choose("elapsed", len(steps))]
+	clk.Advance(elapsed)
+	c.Cleanup()
+	live := elapsed < time.Duration(ttl)*time.Second
+	expiredStrictly := elapsed > time.Duration(ttl)*time.Second
+	if zzverif.Symbolic() {
+		_, stored := vStore[c.m]["k"]
+		if !expiredStrictly {
+			zzverif.Assert(stored, "cleanup_keeps_what_has_not_expired")
+		} else {
+			zzverif.Assert(!stored, "cleanup_removes_expired")
+		}
+	}
+	got, ok := c.Get("k")
+	zzverif.Assert(ok == live, "get_hit_iff_live")
+	if ok {
+		zzverif.Assert(got == 7, "get_returns_latest_value")
+	}
+	_, ok2 := c.Get("other")
+	zzverif.Assert(ok2, "untouched_live_entry_survives_cleanup")
+	c.Stop()
+	zzverif.Cover("ttl_subsecond_done")
 }
